@@ -28,13 +28,13 @@ enum {
 	K_ASYNC, K_BASYNC, K_SYNC, K_BSYNC, K_AAW, K_BAAW, K_GASYNC, K_APPLY, K_AWAIT, K_WORK, K_GATE, K_OPEN,
 	K_SUSPEND, K_RESUME, K_ACTIVATE, K_GENTER, K_GLEAVE, K_GWAIT, K_GNOTIFY, K_SWAIT, K_SSIGNAL, K_ONCE,
 	K_SPECIFIC, K_QSPECIFIC, K_ASSERTQ, K_ASSERTNOTQ, K_XASSERTQ, K_XASSERTNOTQ, K_RETAIN, K_RELEASE, K_SETTARGET,
-	K_BCREATE, K_BSUBMIT, K_BCANCEL, K_BWAIT, K_BNOTIFY, K_BTEST, K_YIELD, K_SLEEP, K_AFTER, K_ONCESTORM, K_NKINDS
+	K_BCREATE, K_BSUBMIT, K_BCANCEL, K_BWAIT, K_BNOTIFY, K_BTEST, K_YIELD, K_SLEEP, K_AFTER, K_ONCESTORM, K_BPERFORM, K_NKINDS
 };
 static const char *kind_names[K_NKINDS] = {
 	"async", "basync", "sync", "bsync", "aaw", "baaw", "gasync", "apply", "await", "work", "gate", "open",
 	"suspend", "resume", "activate", "genter", "gleave", "gwait", "gnotify", "swait", "ssignal", "once",
 	"specific", "qspecific", "assertq", "assertnotq", "xassertq", "xassertnotq", "retain", "release", "settarget",
-	"bcreate", "bsubmit", "bcancel", "bwait", "bnotify", "btest", "yield", "sleep", "after", "oncestorm"
+	"bcreate", "bsubmit", "bcancel", "bwait", "bnotify", "btest", "yield", "sleep", "after", "oncestorm", "bperform"
 };
 
 struct ctx;
@@ -62,6 +62,7 @@ static _Atomic long sem_succ[MAXSEM];
 static dispatch_once_t ONCE[MAXONCE];
 static uint64_t once_val[MAXONCE];
 static dispatch_block_t BLK[MAXBLK];
+static _Atomic int blk_wait_state[MAXBLK];   // 0 idle, 1 a wait is in flight, 2 a wait succeeded
 static _Atomic int gate_open[MAXGATE];
 static _Atomic int gate_waiters[MAXGATE];
 static int gate_hard[MAXGATE];
@@ -91,12 +92,12 @@ static void run_ctx(ctx_t *c);
 static void item_run(op_t *op, int idx) {
 	logev(EV_START, op->id, idx, 0);
 	atomic_fetch_add(&op->runs, 1);
-	if (opt_payload && idx < 0) {
+	if (opt_payload && idx == -1) {
 		for (int k = 0; k < 4; k++) if (REC[op->id][k] != pat((uint64_t)op->id, (uint64_t)k)) { logev(EV_CHKFAIL, op->id, 1, (int64_t)REC[op->id][k]); break; }
 	}
 	int chain = -1;
 	uint64_t myseq = 0;
-	if (opt_payload && idx < 0 && op->kind != K_GNOTIFY && op->kind != K_BNOTIFY && op->a >= 0 && op->a < MAXQ && QD[op->a].used) chain = QD[op->a].chain;
+	if (opt_payload && idx == -1 && op->kind != K_GNOTIFY && op->kind != K_BNOTIFY && op->a >= 0 && op->a < MAXQ && QD[op->a].used) chain = QD[op->a].chain;
 	if (chain >= 0) {          // every item of a serialised hierarchy reads and rewrites one plain record
 		uint64_t s = CHAIN[chain].seq, c = CHAIN[chain].chk;
 		if (c != pat(s, 77)) logev(EV_CHKFAIL, op->id, 4, (int64_t)s);
@@ -108,9 +109,9 @@ static void item_run(op_t *op, int idx) {
 		if (CHAIN[chain].seq != myseq) logev(EV_CHKFAIL, op->id, 5, (int64_t)CHAIN[chain].seq);
 		CHAIN[chain].chk = pat(myseq, 77);
 	}
-	if (opt_payload && idx < 0) RES[op->id] = pat((uint64_t)op->id, 1234);
+	if (opt_payload && idx == -1) RES[op->id] = pat((uint64_t)op->id, 1234);
 	logev(EV_END, op->id, idx, (int64_t)myseq);
-	if (idx < 0) {
+	if (idx == -1) {
 		flag_set(&op->done);
 		if (atomic_fetch_sub(&pending, 1) == 1) fwake_all(&pending);
 	}
@@ -257,11 +258,18 @@ static void exec_op(op_t *op) {
 		dispatch_time_t when = make_deadline(op->c, op->d, &clk);
 		logev(EV_CALL, op->id, (int32_t)op->c, op->d);
 		if (op->kind == K_GWAIT) r = dispatch_group_wait(G[op->a], when);
+		else if (op->kind == K_BWAIT) {
+			// API preconditions (client crashes otherwise): one waiter at a time, and no wait after a wait that succeeded
+			int e = 0;
+			if (!atomic_compare_exchange_strong(&blk_wait_state[op->a], &e, 1)) { logev(EV_SKIP, op->id, (int32_t)op->c, e); break; }
+			r = dispatch_block_wait(BLK[op->a], when);
+			atomic_store(&blk_wait_state[op->a], r == 0 ? 2 : 0);
+		}
 		else if (op->kind == K_SWAIT) {
 			if (op->c == 0) atomic_fetch_add(&sem_fwaiters[op->a], 1);
 			r = dispatch_semaphore_wait(SEM[op->a], when);
 			if (op->c == 0) atomic_fetch_sub(&sem_fwaiters[op->a], 1);
-		} else r = dispatch_block_wait(BLK[op->a], when);
+		}
 		t1 = clock_ns(clk);
 		logev(EV_RET, op->id, (int32_t)op->c, r);
 		logev(EV_VAL, op->id, 1, (int64_t)(t1 - t0));
@@ -337,6 +345,11 @@ static void exec_op(op_t *op) {
 		}
 		logev(EV_RET, op->id, (int32_t)op->b, 0);
 		break; }
+	case K_BPERFORM:
+		logev(EV_CALL, op->id, -1, op->kind);
+		dispatch_block_perform((dispatch_block_flags_t)op->b, ^{ item_run(op, -2); });
+		logev(EV_RET, op->id, -1, 0);
+		break;
 	case K_BCANCEL: logev(EV_CALL, op->id, -1, op->kind); dispatch_block_cancel(BLK[op->a]); logev(EV_RET, op->id, -1, 0); break;
 	case K_BTEST: { logev(EV_CALL, op->id, -1, op->kind); long r = dispatch_block_testcancel(BLK[op->a]); logev(EV_RET, op->id, -1, r); break; }
 	case K_BNOTIFY:
@@ -490,6 +503,12 @@ static int create_objects(const char *path) {
 	for (int i = 0; i < MAXQ; i++) CHAIN[i].chk = pat(0, 77);
 	for (int i = 0; i < MAXG; i++) if (G[i]) G[i] = dispatch_group_create();
 	for (int i = 0; i < MAXSEM; i++) if (SEM[i]) SEM[i] = dispatch_semaphore_create(sem_init[i]);
+	if (CTX[900]) for (int i = 0; i < CTX[900]->nops; i++) {
+		op_t *op = CTX[900]->ops[i];
+		if (op->kind != K_BCREATE) continue;
+		BLK[op->a] = dispatch_block_create((dispatch_block_flags_t)op->b, ^{ item_run(op, -2); });
+		if (!BLK[op->a]) { fprintf(stderr, "block object %ld not created\n", op->a); return -1; }
+	}
 	FILE *f = fopen(path, "r"); char line[512];
 	while (fgets(line, sizeof line, f)) {
 		int q, key, tokid; long val;
